@@ -26,7 +26,8 @@ Rules of btclib's assert_valid that are encoded by construction (no assume/filte
                  (sequence, amount, fallback_lock_time always present: they ARE the unsigned tx;
                   pass canonical=False to let them be None, which v0 serialization normalizes)
              v2: amount on every output and (script_pub_key or sp_v0_info).
-  PsbtIn   : partial_sigs = sec pub key (33/65, on curve) -> strict DER + 1 byte; sig_hash_type in
+  PsbtIn   : partial_sigs = sec pub key (33/65, on curve) -> strict DER (r = x(kG) mod n: dsa.Sig wants r
+             congruent to an x-coordinate; s in 1..n-1, high s too) + 1 byte; sig_hash_type in
              SIG_HASH_TYPES (0 included); hd_key_paths keys 33/65(/78) bytes, distinct origins;
              preimages hash to their key; tap key sig 64/65 bytes (65th byte a non-zero sighash
              type); tap script sig keys 64 bytes; control blocks 33+32k; tap bip32 keys 32
@@ -198,13 +199,18 @@ def _x_only():
     return _secret().map(x_only_hex)
 
 
-def _scalar_rs():
+def _scalar_s():
     return st.one_of(st.sampled_from([1, 0x7F, 0x80, 1 << 255, N - 1, N // 2]), st.integers(1, N - 1), st.integers(1, 0xFFFF))
+
+
+def _scalar_r():
+    """dsa.Sig.assert_valid wants r to be (congruent to) the x-coordinate of a curve point: r = x(kG) mod n."""
+    return _secret().map(lambda k: _point(k)[0] % N or 1)
 
 
 def _ecdsa_sig():
     ht = st.one_of(st.sampled_from([1, 2, 3, 0x81, 0x82, 0x83]), st.sampled_from([0, 0xFF]), st.integers(0, 255))
-    return st.builds(lambda r, s, h: (der_sig(r, s) + bytes([h])).hex(), _scalar_rs(), _scalar_rs(), ht)
+    return st.builds(lambda r, s, h: (der_sig(r, s) + bytes([h])).hex(), _scalar_r(), _scalar_s(), ht)
 
 
 def _schnorr_sig():
@@ -640,8 +646,8 @@ def _draw_output(draw, version: int, in_psbt: bool, amount_value: int | None, ca
     if version == 2:
         if _coin(draw):
             c["sp_v0_info"] = draw(st.builds(lambda a, b: a + b, _comp_key(), _comp_key()))
-            if _coin(draw):
-                c["sp_v0_label"] = draw(st.one_of(st.sampled_from([0, 0, 1, 0xFFFFFFFF]), u32()))
+            if _coin(draw, 2, 3):
+                c["sp_v0_label"] = draw(st.one_of(st.just(0), st.sampled_from([1, 0xFFFFFFFF]), u32()))
     if in_psbt:
         # v0: amount and script are the unsigned tx's output; v2: amount mandatory, and a script
         # unless the silent payment address stands in for it
@@ -729,7 +735,7 @@ def psbt_case(draw, version: int | None = None, max_inputs: int = 3, max_outputs
         if _coin(draw):
             c["fallback_lock_time"] = draw(lock_time)
         if _coin(draw):
-            c["tx_modifiable"] = draw(st.one_of(st.sampled_from([0, 0, 1, 2, 3, 4, 7, 0xFF]), st.integers(0, 0xFF)))
+            c["tx_modifiable"] = draw(st.one_of(st.just(0), st.sampled_from([1, 2, 3, 4, 7, 0xFF]), st.integers(0, 0xFF)))
         if _coin(draw):
             c["sp_ecdh_shares"] = draw(_map(_comp_key(), _comp_key()))
         if _coin(draw):
@@ -774,10 +780,12 @@ def build_psbt(case: dict) -> Psbt:
 
 def _strip(case):
     """The case without its absent fields (for printing)."""
-    if isinstance(case, dict):
-        return {k: _strip(v) for k, v in case.items() if is_present(v) or k in ("inputs", "outputs")}
-    if isinstance(case, list):
-        return [_strip(v) for v in case]
+    if isinstance(case, dict) and ("inputs" in case or "previous_tx_id" in case or "script_pub_key" in case):
+        out = {k: v for k, v in case.items() if is_present(v)}
+        for k in ("inputs", "outputs"):
+            if k in case:
+                out[k] = [_strip(m) for m in case[k]]
+        return out
     return case
 
 
